@@ -819,6 +819,9 @@ def _direct_kinds(expr):
             empty = isinstance(v, (ast.List, ast.Tuple, ast.Dict, ast.Set)) and not (v.elts if not isinstance(v, ast.Dict) else v.keys)
             if v is not None and not empty and any(isinstance(t, ast.Subscript) and norm(t.value).endswith(_DEFERRED) for t in tg):
                 kinds.add("defer")
+            if any(isinstance(t, ast.Attribute) and t.attr == _DEFERRED for t in tg):
+                # the whole table is rebuilt (e.g. a dict comprehension that leaves entries out): counts as a removal
+                kinds.add("consume")
     return kinds
 
 
